@@ -195,15 +195,22 @@ fn gen_case(r: &mut Rng, p: &Params, out: &mut Vec<String>) {
         if !in_block && roll < 35 && g.height.is_some() && g.contracts.iter().any(|c| c.1 == "log1" || c.1 == "log2") && r.chance(50) {
             // log burst (C18): three consecutive blocks with two or three logs each, then range queries over them
             let logc: Vec<(String, String)> = g.contracts.iter().filter(|c| c.1 == "log1" || c.1 == "log2").cloned().collect();
-            for _ in 0..3 {
+            let pk_off = r.below(4) as usize;
+            let mut last_calls: Vec<(String, String, String)> = Vec::new(); // (pk, target, data) of the third block
+            for blk in 0..3 {
                 g.ts += 600;
                 g.hash += 1;
                 let bh = 1_000_000 + g.hash;
                 let n_calls = 2 + r.below(2);
+                last_calls.clear();
                 for i in 0..n_calls {
                     let c = r.pick(&logc).clone();
                     let mut rr = r.fork();
-                    out.push(format!("call pk={} to={} data={} ts={} hash={} idx={} insc=i{} len=auto txid={} field=hex", r.pick(&PKS), c.0, hex::encode(call_data(&mut rr, &c.1)), g.ts, h256(bh), i, g.insc, h256(0xabc000 + g.insc + 1)));
+                    // the third block uses a different sender for each call (see the rebuild below)
+                    let pk = if blk == 2 { PKS[(pk_off + i as usize) % 4] } else { *r.pick(&PKS) };
+                    let data = hex::encode(call_data(&mut rr, &c.1));
+                    out.push(format!("call pk={} to={} data={} ts={} hash={} idx={} insc=i{} len=auto txid={} field=hex", pk, c.0, data, g.ts, h256(bh), i, g.insc, h256(0xabc000 + g.insc + 1)));
+                    last_calls.push((pk.to_string(), c.0.clone(), data));
                     g.insc += 1;
                 }
                 out.push(format!("fin ts={} hash={} count={}", g.ts, h256(bh), n_calls));
@@ -217,6 +224,36 @@ fn gen_case(r: &mut Rng, p: &Params, out: &mut Vec<String>) {
             out.push(format!("read kind=logs from={} to={} addr=- topics=none", h.saturating_sub(2), h));
             out.push(format!("read kind=logs from={} to={} addr={} topics=-", h.saturating_sub(3), h, logc[0].0));
             out.push(format!("read kind=logs from={} to=latest addr=- topics={}", h.saturating_sub(1), 100 + r.below(3)));
+            // rebuild (C18 / C01): the third block is rolled back and replaced by a block that holds only its LAST call
+            // again (same sender, nonce, target and data, hence the same transaction hash, now at index 0): every
+            // per-block index row of the discarded block must be gone, or the logs of that call are served twice
+            if r.chance(60) && h >= 1 && g.max_ever - (h - 1) <= W && snaps.contains_key(&(h - 1)) && !last_calls.is_empty() {
+                let n = h - 1;
+                out.push(format!("reorg n={}", n));
+                let (max_ever, insc, used, hc, ts) = (g.max_ever, g.insc, g.used_hashes.clone(), g.hash, g.ts);
+                g = snaps.get(&n).unwrap().clone();
+                g.max_ever = max_ever;
+                g.insc = insc;
+                g.used_hashes = used;
+                g.hash = hc; // the replacement block gets a fresh hash
+                g.ts = ts;
+                snaps.retain(|k, _| *k <= n);
+                committed = Some(g.clone());
+                g.ts += 600;
+                g.hash += 1;
+                let bh = 1_000_000 + g.hash;
+                let (pk, to, data) = last_calls.last().unwrap().clone();
+                out.push(format!("call pk={} to={} data={} ts={} hash={} idx=0 insc=i{} len=auto txid={} field=hex", pk, to, data, g.ts, h256(bh), g.insc, h256(0xabc000 + g.insc + 1)));
+                g.insc += 1;
+                out.push(format!("fin ts={} hash={} count=1", g.ts, h256(bh)));
+                let hh = g.next();
+                expire_pool(&mut g, hh);
+                g.height = Some(hh);
+                g.max_ever = g.max_ever.max(hh);
+                snaps.insert(hh, g.clone());
+                out.push(format!("read kind=logs from={} to={} addr=- topics=none", hh.saturating_sub(1), hh));
+                out.push(format!("read kind=logs from={} to=latest addr=- topics=-", hh));
+            }
             continue;
         }
         if !in_block && roll < 37 && g.height.is_some() {
@@ -237,12 +274,29 @@ fn gen_case(r: &mut Rng, p: &Params, out: &mut Vec<String>) {
                 g.insc += 1;
                 g.pool.insert((s, acct + 1), p_block);
                 g.ts += 600;
-                out.push(format!("mine count={} ts={}", k, g.ts));
-                for _ in 0..k {
-                    let h = g.next();
-                    expire_pool(&mut g, h);
-                    g.height = Some(h);
-                    snaps.insert(h, g.clone());
+                // refresh variant (C08): after 8 blocks the very same signed transaction is inscribed again (new
+                // inscription id, txid and length): the waiting entry is replaced, so the 10 blocks count from the second
+                // inscription; the gap is filled 4 blocks later (12 after the first, 4 after the second): still executed
+                let refresh = k >= 9 && r.chance(45);
+                let segments: Vec<u64> = if refresh { vec![8, 4] } else { vec![k] };
+                for (si, seg) in segments.iter().enumerate() {
+                    if si == 1 {
+                        g.hash += 1;
+                        out.push(format!(
+                            "transact signer={} nonce={} to={} data={} ts={} hash={} idx=0 insc=i{} len={} txid={} field=hex chain=ok junk=false exp=0",
+                            s, acct + 1, to, data, g.ts + 600, h256(1_000_000 + g.hash), g.insc, 120_000 + r.below(20_000), h256(0xabc000 + g.insc + 1)
+                        ));
+                        g.insc += 1;
+                        g.pool.insert((s, acct + 1), g.next());
+                        g.ts += 600;
+                    }
+                    out.push(format!("mine count={} ts={}", seg, g.ts));
+                    for _ in 0..*seg {
+                        let h = g.next();
+                        expire_pool(&mut g, h);
+                        g.height = Some(h);
+                        snaps.insert(h, g.clone());
+                    }
                 }
                 g.max_ever = g.max_ever.max(g.height.unwrap());
                 // the pool is persistent state: a commit (and a restart) in between must not change what happens
@@ -918,6 +972,21 @@ fn exec_line(ctx: &mut Ctx, line: &str, out: &mut Out) {
             }
             let class = err_class(&resp);
             let after = ctx.main.state();
+            // C16: a transaction that fails (out of gas included) changes no storage slot and no code
+            if matches!(op.as_str(), "deploy" | "call" | "deposit" | "withdraw") {
+                if let Some(rc) = resp.ok.as_ref().filter(|v| v.is_object()) {
+                    if rc["status"].as_str() == Some("0x0") {
+                        let (db, da) = (digest(&before), digest(&after));
+                        for t in ["account_memory:", "code:"] {
+                            let sec = |d: &str| d.split(' ').find(|w| w.starts_with(t)).map(|x| x.to_string());
+                            if sec(&db) != sec(&da) {
+                                out.oracle_fail(&case, "failed-tx-state", &format!("a transaction with status 0 changed table {} {:?} -> {:?}: {}", t, sec(&db), sec(&da), line));
+                            }
+                        }
+                        out.count("failed-tx-state-checked");
+                    }
+                }
+            }
             if resp.panicked {
                 // known finding F10: a signed transaction parked after the tip was finalised is a table write stamped
                 // height + 1 with no block under construction; a reorg to exactly (height - 10) is then accepted and
@@ -1785,19 +1854,10 @@ fn exec_read(ctx: &mut Ctx, f: &BTreeMap<String, String>, out: &mut Out) {
             };
             let mut all = Vec::new();
             for n in 0..=(latest + 1) {
-                let mut i = 0u64;
-                loop {
-                    let tx = ctx.main.call("eth_getTransactionByBlockNumberAndIndex", json!([n, i])).ok.filter(|t| !t.is_null());
-                    let Some(tx) = tx else { break };
-                    if let Some(rc) = ctx.main.call("eth_getTransactionReceipt", json!([tx["hash"]])).ok.filter(|r| !r.is_null()) {
-                        for lg in rc["logs"].as_array().cloned().unwrap_or_default() {
-                            let ts: Vec<String> = lg["topics"].as_array().map(|a| a.iter().filter_map(|t| t.as_str().map(|s| s.to_lowercase())).collect()).unwrap_or_default();
-                            all.push(format!("{}@{}/{}", ident(&lg), lg["address"].as_str().unwrap_or("").to_lowercase(), ts.join("/")));
-                        }
-                    }
-                    i += 1;
-                    if i > 10_000 {
-                        break;
+                for rc in receipts_of_block(ctx, n) {
+                    for lg in rc["logs"].as_array().cloned().unwrap_or_default() {
+                        let ts: Vec<String> = lg["topics"].as_array().map(|a| a.iter().filter_map(|t| t.as_str().map(|s| s.to_lowercase())).collect()).unwrap_or_default();
+                        all.push(format!("{}@{}/{}", ident(&lg), lg["address"].as_str().unwrap_or("").to_lowercase(), ts.join("/")));
                     }
                 }
             }
@@ -2144,22 +2204,43 @@ fn cat_sel(sel: &[u8], b: u8) -> Vec<u8> {
     d
 }
 
+/// The receipts of block `n` in block order, found WITHOUT the (block, index) -> hash table that `eth_getLogs` itself
+/// walks: a finalised block lists its transactions in its own row; the block under construction has exactly
+/// `waiting_tx_count` transactions (only there the index is consulted, bounded by that count).  A stale index row above
+/// a block's real transaction count (left behind by a rollback that forgot the index table) is therefore not followed.
+fn receipts_of_block(ctx: &Ctx, n: u64) -> Vec<Value> {
+    let mut hashes: Vec<Value> = Vec::new();
+    match ctx.main.call("eth_getBlockByNumber", json!([format!("0x{:x}", n), false])).ok.filter(|b| !b.is_null()) {
+        Some(b) => hashes = b["transactions"].as_array().cloned().unwrap_or_default(),
+        None => {
+            let st = ctx.main.state();
+            let waiting = st["lbi"]["waiting_tx_count"].as_u64().unwrap_or(0);
+            let next = latest_height(&ctx.main).map_or(0, |h| h + 1);
+            if n == next {
+                for i in 0..waiting.min(10_000) {
+                    if let Some(tx) = ctx.main.call("eth_getTransactionByBlockNumberAndIndex", json!([n, i])).ok.filter(|t| !t.is_null()) {
+                        hashes.push(tx["hash"].clone());
+                    }
+                }
+            }
+        }
+    }
+    let mut out = Vec::new();
+    for h in hashes {
+        if let Some(rc) = ctx.main.call("eth_getTransactionReceipt", json!([h])).ok.filter(|r| !r.is_null()) {
+            out.push(rc);
+        }
+    }
+    out
+}
+
 /// C18: the logs returned are exactly the logs of the receipts in range, in chain order
 fn check_logs(ctx: &Ctx, from: u64, to: u64, got: &[Value], addr: Option<&str>, topics: Option<&Vec<Vec<String>>>, out: &mut Out) {
-    // receipts in range, finalised or in the block under construction: walk (block, index) until a gap
+    // receipts in range, finalised or in the block under construction (not through the index table get_logs walks)
     let mut want = Vec::new();
     for n in from..=to {
-        let mut i = 0u64;
-        loop {
-            let tx = ctx.main.call("eth_getTransactionByBlockNumberAndIndex", json!([n, i])).ok.filter(|t| !t.is_null());
-            let Some(tx) = tx else { break };
-            if let Some(rc) = ctx.main.call("eth_getTransactionReceipt", json!([tx["hash"]])).ok.filter(|r| !r.is_null()) {
-                want.extend(rc["logs"].as_array().cloned().unwrap_or_default());
-            }
-            i += 1;
-            if i > 10_000 {
-                break;
-            }
+        for rc in receipts_of_block(ctx, n) {
+            want.extend(rc["logs"].as_array().cloned().unwrap_or_default());
         }
     }
     // the reference filter: address equal; per position: wildcard, or the log has that topic and it is one of the alternatives
